@@ -172,6 +172,8 @@ def do_op(op: tuple, out: list) -> None:
             loc = dict(ns)
             exec(compile(BUILD_SRC[kind], f"<c16-{kind}>", "exec"), loc)  # noqa: S102
             out.append(("built", loc[DAG_NAME[kind]]))
+        elif kind == "call_bad":
+            out.append(("ok", repr(ns["shared"](op[1], op[1]))))  # too many positional arguments: the documented TypeError
         elif kind == "call_f":
             out.append(("ok", repr(FRESH["shared_f"](op[1]))))
         elif kind == "call_p":
@@ -233,6 +235,8 @@ SCENARIOS: Dict[str, List[List[tuple]]] = {
 }
 SCENARIOS["pooled_call||pooled_call"] = [[("call_p", 1)], [("call_p", 5)]]
 SCENARIOS["pooled_call||build"] = [[("call_p", 1)], [("build",)]]
+# a call that is refused (too many arguments) in one thread, then calls in both threads: nothing stays locked behind the refusal
+SCENARIOS["refused_call_then_call||call"] = [[("call_bad", 1), ("call", 3)], [("call", 2), ("call_p", 2)]]
 FRESH_SRC = '''
 @dag
 def shared_f(x):
